@@ -33,7 +33,14 @@ pub fn run(case: &Value, ctx: &Ctx) -> Outcome {
 
     // option spellings
     let mut groups: Vec<Vec<String>> = Vec::new();
-    if !marg.is_empty() {
+    let spell = case["spell"].as_str().unwrap_or("any");
+    if !marg.is_empty() && spell != "any" {
+        // the list exactly as the model typed it (View.tla: opts.named)
+        let named = usizes(&case["named"]).iter().map(|a| a.to_string()).collect::<Vec<_>>().join(",");
+        out.tag(format!("axis-list:{spell}:{}", if usizes(&case["named"]).windows(2).all(|w| w[0] < w[1]) { "ascending" } else { "other-order" }));
+        let flag = match (spell, id % 2) { ("remove", 0) => "-m", ("remove", _) => "--marginalize-remove", (_, 0) => "-M", _ => "--marginalize-keep" };
+        groups.push(vec![flag.into(), named]);
+    } else if !marg.is_empty() {
         if id % 2 == 0 {
             // the order in which axes are named must not matter: descending for some scenarios
             let mut named = marg.clone();
